@@ -68,6 +68,14 @@ def wakeup_paths(chk, m, K, Kconst):
                 elif argev is not None:
                     NOW_BY_ARG.append((argev, pid, p.ret_inst.loc))
                     continue
+            if why is None:
+                known = {"current", "state", "now", "runq", "atomic_runq", "timerq", "taint_flags"}
+                opaque = [x for c, t, i in p.conds for x in paths.subexprs(c)
+                          if x[0] == "ld" and x[1] is not None and K.member_of(x[1]) and K.member_of(x[1])[0] not in known]
+                if opaque:
+                    chk.unknown("U2.now-needs-runnable", pid, "`now` is returned after a test of kernel.%s, state this rule does not interpret"
+                                % K.member_of(opaque[0][1])[0], p.ret_inst.loc)
+                    continue
             chk.ob("U2.now-needs-runnable", pid, why is not None,
                    "`now` is returned because %s" % why if why else
                    "`now` is returned with no evidence on the path that anything is runnable (no queued request, no queued fibre, no fibre "
@@ -95,6 +103,16 @@ def wakeup_paths(chk, m, K, Kconst):
                    p.ret_inst.loc, fn.name)
             continue
         missing = [q for q in need if facts[q] is not True]
+        if missing:
+            # emptiness decided from kernel state this rule does not interpret (a counter of runnable fibres, a flag)?
+            known = {"current", "state", "now", "runq", "atomic_runq", "timerq", "taint_flags"}
+            opaque = [x for c, t, i in p.conds for x in paths.subexprs(c)
+                      if x[0] == "ld" and x[1] is not None and K.member_of(x[1]) and K.member_of(x[1])[0] not in known]
+            if opaque:
+                chk.unknown("U2.guard-set", pid, "%s %s not tested through the list / queue API on this path, but the path tests kernel.%s, "
+                            "state this rule does not interpret" % (", ".join(missing), "is" if len(missing) == 1 else "are",
+                                                                     K.member_of(opaque[0][1])[0]), p.ret_inst.loc)
+                continue
         chk.ob("U2.guard-set", pid, not missing,
                "a wake-up time later than now is returned only if %s %s empty%s" %
                (", ".join(need), "are" if len(need) > 1 else "is",
